@@ -836,6 +836,21 @@ def part_bundles(ctx, root, tmp):
                 ba = one(str(z), None, ["bytecode"])["bytecode"]
             except Exception as ex:  # noqa
                 ba = f"rejected: {type(ex).__name__}"
+            # the same archive through the real command line (`vyper -f bytecode variant.zip`, a fresh process): the CLI builds its
+            # own Settings object from its (absent) flags and merges it with the bundle's settings -- the defaults of the command
+            # line must not override what the bundle recorded
+            try:
+                rc = subprocess.run([sys.executable, "-m", "vyper.cli.vyper_compile", "-f", "bytecode", str(z)], capture_output=True, text=True,
+                                    timeout=300, cwd=str(vdir), env=dict(os.environ, PYTHONPATH=str(REPO), PYTHONDONTWRITEBYTECODE="1"))
+                bc = ([l.strip() for l in rc.stdout.splitlines() if l.strip().startswith("0x")] or [f"rejected: rc={rc.returncode} {rc.stderr[-120:]}"])[-1]
+            except Exception as ex:  # noqa
+                bc = f"rejected: {type(ex).__name__}"
+            stats["settings_variant_roundtrips"] += 1
+            if bc != base:
+                ctx.violation("failing-input", f"`vyper variant.zip` (command line) does not reproduce a build made with {name}",
+                              {"variant": name, "source": (vdir / src).read_text(), "original": base[:120], "from_bundle_via_cli": str(bc)[:160],
+                               "replay": "vyper -f archive <flags> d.vy > variant.zip (base64-decoded); vyper -f bytecode variant.zip"},
+                              key="C18:archive-drops-settings:cli")
             sj = one(src, mk(), ["solc_json"])["solc_json"]
             sj = sj if isinstance(sj, dict) else json.loads(sj)
             try:
